@@ -42,6 +42,12 @@ type c15Cfg struct {
 	// OddCDP > 0: that long after the start instance 0 sees a handshake whose certificate names a distribution point
 	// which cannot be used - a URI with an octet outside ASCII (not valid UTF-8), a second one with an unsupported scheme
 	OddCDP time.Duration
+	// Moved (sources crl_urls, cdp): from the publication of the next list on the origin answers the known address with
+	// a redirect (301 / 307 / 308) to a new one, where the next list is served
+	Moved int
+	// FailedSibling: after the instances were provisioned, one more validator of the process fails to provision (its
+	// configured crl_file does not exist) and is cleaned up
+	FailedSibling bool
 }
 
 func (c c15Cfg) String() string {
@@ -61,6 +67,12 @@ func (c c15Cfg) String() string {
 	}
 	if c.OddCDP > 0 {
 		late += fmt.Sprintf(" unusable-cdp-at=+%s", c.OddCDP)
+	}
+	if c.Moved != 0 {
+		late += fmt.Sprintf(" origin-redirects-%d-from-publication-on", c.Moved)
+	}
+	if c.FailedSibling {
+		late += " another-validator-failed-to-provision"
 	}
 	return fmt.Sprintf("instances=%d intervals=%v phases=%v download=%s script=%q sig=%s background=%v source=%s%s", c.N, c.Intervals, c.Phases, c.Dur, c.Script, sm, c.Background, c.Source, late)
 }
@@ -179,6 +191,16 @@ func c15Run(cfg c15Cfg) (o c15Obs) {
 		if len(o.Viols) > 0 {
 			return
 		}
+		if cfg.FailedSibling {
+			doomed := NewCW(CWOpt{Disk: false, SigMode: cfg.Sig, Background: cfg.Background, Net: net, Interval: cfg.Intervals[0].String(), Files: []string{filepath.Join(files, "does-not-exist.crl")}})
+			if err := doomed.Provision(); err == nil {
+				o.Viols = append(o.Viols, c14Viol{"C15|harness|doomed-validator-provisioned", "a validator whose configured crl_file does not exist was provisioned"})
+				return
+			}
+			doomed.Chk.Cleanup()
+			os.RemoveAll(doomed.Dir)
+			vsched.Drain()
+		}
 		start := vsched.Now()
 		publishAt := start.Add(maxI + maxI/2)
 		B := func(i int) time.Duration { return 2*cfg.Intervals[i] + cfg.Dur*time.Duration(cfg.N) + 5*time.Second }
@@ -208,6 +230,14 @@ func c15Run(cfg c15Cfg) (o c15Obs) {
 					l := world.Leaf(p.CA, bi(int64(830+k)), []string{u}, nil)
 					ws[0].Lookup(l, world.Chain(l, p.CA, p.Root))
 					vsched.Drain()
+				}
+			}
+			if !published && !vsched.Now().Before(publishAt) && cfg.Moved != 0 {
+				for i := 0; i < cfg.N; i++ {
+					moved := c15URL(i) + ".new"
+					net.Routes[moved] = &world.Behaviour{Label: "crl-at-new-address", Delay: cfg.Dur, Body: v2}
+					net.Routes[c15URL(i)] = &world.Behaviour{Label: "moved", Redirect: cfg.Moved, RedirectTo: moved}
+					publishedAt[i] = vsched.Now()
 				}
 			}
 			if !published && !vsched.Now().Before(publishAt) {
@@ -314,6 +344,20 @@ func c15Configs(tier string) []c15Cfg {
 			for _, src := range []string{"crl_urls", "cdp"} {
 				out = append(out, c15Cfg{N: 1, Intervals: []time.Duration{I}, Script: "", Sig: sg, Background: bg, Source: src, OddCDP: I / 2})
 				out = append(out, c15Cfg{N: 2, Intervals: []time.Duration{I, I}, Phases: []time.Duration{time.Second}, Script: "", Sig: sg, Background: bg, Source: src, OddCDP: I / 2})
+			}
+		}
+	}
+	// another validator of the process fails to provision
+	for _, src := range []string{"crl_files", "crl_urls", "cdp"} {
+		for _, bg := range []bool{false, true} {
+			out = append(out, c15Cfg{N: 1, Intervals: []time.Duration{I}, Script: "", Sig: config.SignatureValidationModeVerify, Background: bg, Source: src, FailedSibling: true})
+		}
+	}
+	// the origin moves the list: redirects from the publication of the next list on
+	for _, code := range []int{301, 307, 308} {
+		for _, src := range []string{"crl_urls", "cdp"} {
+			for _, bg := range []bool{false, true} {
+				out = append(out, c15Cfg{N: 1, Intervals: []time.Duration{I}, Script: "", Sig: config.SignatureValidationModeVerify, Background: bg, Source: src, Moved: code})
 			}
 		}
 	}
